@@ -23,8 +23,8 @@ RULE = ("E1: four model kinds, connected only: (a) BNs with connected moral grap
         "evidence variable sits in >=2 cliques")
 BOUNDS = {"quick": "BN: iso classes n<=3 x 2-element alphabet core + card/style/relabeling families + iso classes n=4; MN: all connected graphs "
                    "n<=4 x 4 layouts (H1-H6 forced on non-chordal graphs and on n<=3), all 728 connected graphs n=5 with the edge layout and "
-                   "single-variable evidence; FG n<=4; JT: all RIP clique trees n<=4",
-          "thorough": "BN: all DAGs n<=4; MN n=4 with 2 cardinality vectors and H1-H6 everywhere; |E|<=2 everywhere"}
+                   "single-variable evidence; every unlabelled tree on 6 and 7 nodes (17) as a pairwise network, queries of 1 and 3 variables; FG n<=4; JT: all RIP clique trees n<=4",
+          "thorough": "BN: all DAGs n<=4; MN n=4 with 2 cardinality vectors and H1-H6 everywhere; |E|<=2 everywhere; trees on 8 nodes, 2 labelings each"}
 EXHAUSTIVE = {"quick": True, "thorough": True}
 ASSUMPTIONS = ["models are connected (the library rejects disconnected clique trees by design)", "P(evidence)>0 decided by the reference",
                "all-zero beliefs are a violation; proportionality is checked after normalising both sides"]
@@ -68,6 +68,19 @@ def groups(tier, seed):
     g5 = all_ugraphs(5)
     for i in range(0, len(g5), 8):
         out.append({"kind": "mn5", "lo": i, "hi": min(i + 8, len(g5))})
+    # long and branching clique trees: every unlabelled tree on 6 and 7 nodes (thorough: 8) as a pairwise Markov network
+    # (its clique tree has n-1 cliques; spiders give query subtrees in which a clique has several children with descendants)
+    import networkx as nx
+
+    for n in (6, 7, 8) if full else (6, 7):
+        for ti, t in enumerate(nx.nonisomorphic_trees(n)):
+            rel = list(range(n))
+            for r in range(2 if full else 1):
+                k = (seed + ti + r * 3) % n
+                perm = rel[k:] + rel[:k]
+                e = sorted(tuple(sorted((perm[a], perm[b]))) for a, b in t.edges())
+                out.append({"kind": "mn", "n": n, "edges": [list(x) for x in e], "card": [2] * n, "layout": "edge", "heur": None,
+                            "lab": ["str", None, "str"], "emax": 1, "tree": True})
     return out
 
 
@@ -260,13 +273,15 @@ def _one_model(st, g, model, lab, n, card, joint, only):
     except Exception:
         cliques = []
     first = True
-    for q in subsets(range(n), 1 if g.get("single") else 2):
-        if not q:
+    for q in subsets(range(n), 1 if g.get("single") else 3 if g.get("tree") else 2):
+        if not q or (g.get("tree") and len(q) == 2):
             continue
         rest = [v for v in range(n) if v not in q]
         for e in subsets(rest, g["emax"]):
             for states in product(*[range(card[v]) for v in e]):
                 if g.get("single") and (not e or states[0] != 1):
+                    continue
+                if g.get("tree") and any(x != 1 for x in states):
                     continue
                 evd = dict(zip(e, states))
                 post, pe = posterior(joint, list(q), evd)
@@ -275,7 +290,7 @@ def _one_model(st, g, model, lab, n, card, joint, only):
                 multi = not any(set(q) <= c for c in cliques) or any(sum(1 for c in cliques if v in c) >= 2 for v in e)
                 if multi:
                     st.nt((q, e, states))
-                for jt_ in ((True, False) if len(q) > 1 or not g.get("single") else (True,)):
+                for jt_ in ((True,) if g.get("tree") else (True, False) if len(q) > 1 or not g.get("single") else (True,)):
                     key = ["query", list(q), [list(x) for x in evd.items()], jt_]
                     if only is not None and only != key:
                         continue
